@@ -360,4 +360,152 @@ theorem floydWarshall_spec (n : Nat) (m : Mat) (hm : m.Square n) (i j : Nat) (hi
       rw [h mids'] at hw'
       exact absurd hw' (by simp)
 
+
+/-! ### the weight matrix -/
+/-- `_mat[q1][q2] = w; _mat[q2][q1] = w` -/
+def put (m : Mat) (e : Nat × Nat) (w : Nat) : Mat := (m.set e.1 e.2 (some w)).set e.2 e.1 (some w)
+
+theorem weightMat_eq (g : G) (dw rw : Nat) (remote : List (Nat × Nat)) (over : List ((Nat × Nat) × Nat)) :
+    g.weightMat dw rw remote over =
+      over.foldl (fun m ew => put m ew.1 ew.2)
+        (remote.foldl (fun m e => put m (norm e) rw)
+          (g.edges.foldl (fun m e => put m e dw) (List.replicate g.n (List.replicate g.n none)))) := rfl
+
+theorem replicate_square (n : Nat) : Mat.Square (List.replicate n (List.replicate n none)) n := by
+  refine ⟨by simp, ?_⟩
+  intro row hrow
+  rw [List.mem_replicate] at hrow
+  simp [hrow.2]
+
+theorem replicate_get (n i j : Nat) : Mat.get (List.replicate n (List.replicate n none)) i j = none := by
+  unfold Mat.get
+  simp only [List.getD_eq_getElem?_getD, List.getElem?_replicate]
+  by_cases hi : i < n <;> by_cases hj : j < n <;> simp [hi, hj]
+
+theorem put_square {m : Mat} {n : Nat} (hm : m.Square n) (e : Nat × Nat) (w : Nat) : (put m e w).Square n :=
+  Mat.set_square (Mat.set_square hm _ _ _) _ _ _
+
+/-- does the (ordered) pair `e` denote the unordered pair `{i, j}` -/
+def matches2 (i j : Nat) (e : Nat × Nat) : Bool := e == (i, j) || e == (j, i)
+
+theorem matches2_norm (i j : Nat) (e : Nat × Nat) : matches2 i j (norm e) = matches2 i j e := by
+  obtain ⟨a, b⟩ := e
+  unfold matches2 norm
+  by_cases h : a ≤ b <;> simp [h]
+  rw [Bool.eq_iff_iff]; simp; omega
+
+theorem put_get {m : Mat} {n : Nat} (hm : m.Square n) (e : Nat × Nat) (he : e.1 < n ∧ e.2 < n) (w : Nat)
+    (i j : Nat) : (put m e w).get i j = if matches2 i j e then some w else m.get i j := by
+  obtain ⟨a, b⟩ := e
+  unfold put
+  rw [Mat.get_set (Mat.set_square hm _ _ _), Mat.get_set hm]
+  simp only [matches2, Bool.or_eq_true, beq_iff_eq, Prod.mk.injEq]
+  simp only at he
+  by_cases h1 : i = b ∧ j = a
+  · simp [h1, he]
+  · by_cases h2 : i = a ∧ j = b
+    · simp [h2, he]
+    · have h1' : ¬ (a = j ∧ b = i) := fun h => h1 ⟨h.2.symm, h.1.symm⟩
+      have h2' : ¬ (a = i ∧ b = j) := fun h => h2 ⟨h.1.symm, h.2.symm⟩
+      have h3 : ¬ (i = b ∧ j = a ∧ b < n ∧ a < n) := fun h => h1 ⟨h.1, h.2.1⟩
+      have h4 : ¬ (i = a ∧ j = b ∧ a < n ∧ b < n) := fun h => h2 ⟨h.1, h.2.1⟩
+      simp [h1', h2', h3, h4]
+
+theorem foldl_put_square {α} (key : α → Nat × Nat) (wt : α → Nat) (l : List α) {M : Mat} {n : Nat}
+    (hM : M.Square n) : (l.foldl (fun m x => put m (key x) (wt x)) M).Square n :=
+  foldl_inv (fun D => D.Square n) _ l M hM (fun _ _ _ h => put_square h _ _)
+
+/-- a sequence of `put`s: the last matching assignment wins -/
+theorem foldl_put_get {α} (key : α → Nat × Nat) (wt : α → Nat) (l : List α) {M : Mat} {n : Nat}
+    (hM : M.Square n) (hl : ∀ x ∈ l, (key x).1 < n ∧ (key x).2 < n) (i j : Nat) :
+    (l.foldl (fun m x => put m (key x) (wt x)) M).get i j =
+      match l.reverse.find? (fun x => matches2 i j (key x)) with
+      | some x => some (wt x)
+      | none => M.get i j := by
+  induction l generalizing M with
+  | nil => simp
+  | cons x xs ih =>
+    rw [List.foldl_cons, ih (put_square hM _ _) (fun y hy => hl y (by simp [hy]))]
+    rw [List.reverse_cons, List.find?_append]
+    cases hf : xs.reverse.find? (fun x => matches2 i j (key x)) with
+    | some y => simp
+    | none =>
+      rw [put_get hM _ (hl x (by simp))]
+      by_cases hx : matches2 i j (key x) <;> simp [hx]
+
+theorem weightMat_square (g : G) (dw rw : Nat) (remote : List (Nat × Nat)) (over : List ((Nat × Nat) × Nat)) :
+    (g.weightMat dw rw remote over).Square g.n := by
+  rw [weightMat_eq]
+  exact foldl_put_square (fun ew : (Nat × Nat) × Nat => ew.1) (fun ew => ew.2) over
+    (foldl_put_square (fun e : Nat × Nat => norm e) (fun _ => rw) remote
+      (foldl_put_square (fun e : Nat × Nat => e) (fun _ => dw) g.edges (replicate_square g.n)))
+
+theorem G.hasEdge_iff_any (g : G) (hwf : g.WF) (i j : Nat) :
+    g.hasEdge i j = g.edges.any (matches2 i j) := by
+  rw [Bool.eq_iff_iff, G.hasEdge_iff, List.any_eq_true]
+  constructor
+  · intro h
+    refine ⟨_, h, ?_⟩
+    rw [matches2_norm]; simp [matches2]
+  · rintro ⟨⟨a, b⟩, he, hm⟩
+    have := hwf _ he
+    simp only [matches2, Bool.or_eq_true, beq_iff_eq, Prod.mk.injEq] at hm
+    simp only at this
+    rcases hm with ⟨rfl, rfl⟩ | ⟨rfl, rfl⟩
+    · rw [norm_of_le (by omega)]; exact he
+    · rw [norm_of_lt (by omega)]; exact he
+
+
+theorem find?_reverse_const {α} (p : α → Bool) (l : List α) (c : Nat) (d : W) :
+    (match l.reverse.find? p with
+      | some _ => some c
+      | none => d) = if l.any p then some c else d := by
+  cases hf : l.reverse.find? p with
+  | some y =>
+    have := List.find?_some hf
+    have hm : y ∈ l := by simpa using List.mem_of_find?_eq_some hf
+    have : l.any p = true := List.any_eq_true.mpr ⟨y, hm, this⟩
+    simp [this]
+  | none =>
+    have : l.any p = false := by
+      rw [List.any_eq_false]
+      intro x hx
+      have := List.find?_eq_none.mp hf x (by simpa using hx)
+      simpa using this
+    simp [this]
+
+/-- The entries of `_mat` in general: remote edges and override keys must denote edges of the graph
+(the constructor raises `ValueError` otherwise); later assignments win. -/
+theorem weightMat_get (g : G) (hwf : g.WF) (dw rw : Nat) (remote : List (Nat × Nat))
+    (over : List ((Nat × Nat) × Nat))
+    (hrem : ∀ e ∈ remote, g.hasEdge e.1 e.2 = true)
+    (hover : ∀ ew ∈ over, g.hasEdge ew.1.1 ew.1.2 = true) (i j : Nat) :
+    (g.weightMat dw rw remote over).get i j =
+      match over.reverse.find? (fun ew => matches2 i j ew.1) with
+      | some ew => some ew.2
+      | none =>
+        if remote.any (matches2 i j) then some rw
+        else if g.hasEdge i j then some dw else none := by
+  rw [weightMat_eq]
+  have sq1 := foldl_put_square (fun e : Nat × Nat => e) (fun _ => dw) g.edges (replicate_square g.n)
+  have sq2 := foldl_put_square (fun e : Nat × Nat => norm e) (fun _ => rw) remote sq1
+  rw [foldl_put_get (fun ew : (Nat × Nat) × Nat => ew.1) (fun ew => ew.2) over sq2
+    (fun ew hew => ⟨(g.hasEdge_lt hwf (hover ew hew)).2.1, (g.hasEdge_lt hwf (hover ew hew)).2.2⟩)]
+  rw [foldl_put_get (fun e : Nat × Nat => norm e) (fun _ => rw) remote sq1 ?hr]
+  case hr =>
+    intro e he
+    have := g.hasEdge_lt hwf (hrem e he)
+    unfold norm; split <;> first | omega | (simp only []; omega)
+  rw [foldl_put_get (fun e : Nat × Nat => e) (fun _ => dw) g.edges (replicate_square g.n)
+    (fun e he => by have := hwf e he; omega)]
+  simp only [matches2_norm, find?_reverse_const, replicate_get, G.hasEdge_iff_any g hwf]
+  split <;> rename_i h <;> simp only [h] <;> rfl
+
+/-- the weight matrix the constructor builds (default case: no remote edges, no overrides) -/
+theorem weightMat_default_get (g : G) (hwf : g.WF) (dw rw : Nat) (i j : Nat) (hi : i < g.n) (hj : j < g.n) :
+    (g.weightMat dw rw [] []).get i j = if g.hasEdge i j then some dw else none := by
+  have _ := hi; have _ := hj
+  rw [weightMat_get g hwf dw rw [] [] (by simp) (by simp)]
+  simp
+
 end BqVerif.Graph
